@@ -92,3 +92,13 @@ CHECKS['C06'] = dict(
          'the first line of a HEADER-only export with the same selection.',
     note='Not decided: the projection equality on all split/join layouts; the excerpt preamble (from_measure) bypasses append_row (C08.R4, known finding F16).',
 )
+
+CHECKS['C05'] = dict(
+    category='other',
+    technique='origin check of the selected set; descendant-closure proof (constant evaluation) of every category set that reaches ExportOptions; guard truth table of the category gate; placeholder/null-row table agreement; per-element filter shape in the token exporters and tokenizers',
+    text='Decides the mechanism clauses: the selected set is valid(include, exclude) with unswapped origins and cannot be overwritten; every '
+         'category set handed to the exporter by API or CLI is descendant-closed; the category gate is `not hidden and (complex or category '
+         'selected)` with the right placeholder; placeholders and null-row tables agree; every sub-token of every list goes through the '
+         'membership predicate in all six tokenizers.',
+    note='Not decided: equality with the reference filter on whole documents. C11 decides that valid is closure(include) - closure(exclude).',
+)
